@@ -396,10 +396,19 @@ def answer (l : Line) : Option Ans :=
     pure { model := [.int v, Val.ofInts log], spec := spec, tags := ["reduce"], nontrivial := distinct2 s }
   | _, _ => none
 
+/-- `mergeshared m k`: `Merge` called on operands that are windows of ONE backing array, laid out in an
+order (`k`) different from the argument order, with spare capacity behind every window; the contract,
+model and monitor are those of `merge` — where a slice lives is not part of its value. -/
+def normOp (l : Line) : Line :=
+  match l.op, l.args with
+  | "mergeshared", [mv, .int _] => { l with op := "merge", args := [mv] }
+  | _, _ => l
+
 def kind : Kind where
   σ := Unit
   init := fun _ => some ()
-  step := fun st l =>
+  step := fun st l0 =>
+    let l := normOp l0
     match l.res with
     | [.atom "hang"] => { st := st, spec := some s!"terminates:{l.op}" }
     | _ =>
